@@ -26,6 +26,13 @@ fn ident(v: &T) -> String {
     }
 }
 
+/// read the pointee through the handle just obtained (a plain access: checked by the race detector)
+fn touch(v: &T) {
+    if let Some(a) = v {
+        let _ = a.get();
+    }
+}
+
 fn ident_of_addr(addr: usize) -> String {
     match varc::index_of(addr) {
         Some(k) => varc::ident(&varc::ENTRIES[k - 1]),
@@ -230,6 +237,16 @@ fn after_hook(e: &Event, val: usize, ok: bool) {
         Some(w) => w,
         None => return,
     };
+    {
+        use crate::race::Kind as RK;
+        let kind = match e.op {
+            AOp::Load => RK::Load,
+            AOp::Store => RK::Store,
+            AOp::Swap | AOp::FetchAdd | AOp::FetchSub => RK::Rmw,
+            AOp::CompareExchange | AOp::CompareExchangeWeak => if ok { RK::Rmw } else { RK::FailedCas },
+        };
+        crate::race::atomic(e.addr, kind, e.ord, e.ord_fail);
+    }
     let line = names(|n| {
         let site = site_label(n, e);
         if site.starts_with("list.rs:Node::") {
@@ -557,14 +574,14 @@ where
     S: Strategy<T> + CaS<T> + Default + Send + Sync + 'static,
 {
     // Helpers to take / put registers without holding the lock across scheduling points.
-    macro_rules! take_h { ($i:expr) => {{ let mut r = lock(&sh.regs); if $i < r.h.len() { r.h[$i].take() } else { None } }}; }
-    macro_rules! put_h { ($i:expr, $v:expr) => {{ let mut r = lock(&sh.regs); if r.h.len() <= $i { r.h.resize_with($i + 1, || None); } r.h[$i] = Some($v); }}; }
+    macro_rules! take_h { ($i:expr) => {{ let mut r = lock(&sh.regs); if $i < r.h.len() { let x = r.h[$i].take(); if x.is_some() { crate::race::reg_take(b'h', $i); } x } else { None } }}; }
+    macro_rules! put_h { ($i:expr, $v:expr) => {{ let mut r = lock(&sh.regs); if r.h.len() <= $i { r.h.resize_with($i + 1, || None); } r.h[$i] = Some($v); crate::race::reg_put(b'h', $i); }}; }
     macro_rules! h_free { ($i:expr) => {{ let r = lock(&sh.regs); $i >= r.h.len() || r.h[$i].is_none() }}; }
     macro_rules! g_free { ($i:expr) => {{ let r = lock(&sh.regs); $i >= r.g.len() || r.g[$i].is_none() }}; }
-    macro_rules! take_g { ($i:expr) => {{ let mut r = lock(&sh.regs); if $i < r.g.len() { r.g[$i].take() } else { None } }}; }
-    macro_rules! put_g { ($i:expr, $v:expr) => {{ let mut r = lock(&sh.regs); if r.g.len() <= $i { r.g.resize_with($i + 1, || None); } r.g[$i] = Some($v); }}; }
-    macro_rules! cont { ($i:expr) => {{ let mut r = lock(&sh.regs); let x = if $i < r.c.len() { r.c[$i].clone() } else { None }; if x.is_some() { r.busy[$i] += 1; } x }}; }
-    macro_rules! done { ($i:expr) => {{ let mut r = lock(&sh.regs); r.busy[$i] -= 1; }}; }
+    macro_rules! take_g { ($i:expr) => {{ let mut r = lock(&sh.regs); if $i < r.g.len() { let x = r.g[$i].take(); if x.is_some() { crate::race::reg_take(b'g', $i); } x } else { None } }}; }
+    macro_rules! put_g { ($i:expr, $v:expr) => {{ let mut r = lock(&sh.regs); if r.g.len() <= $i { r.g.resize_with($i + 1, || None); } r.g[$i] = Some($v); crate::race::reg_put(b'g', $i); }}; }
+    macro_rules! cont { ($i:expr) => {{ let mut r = lock(&sh.regs); let x = if $i < r.c.len() { r.c[$i].clone() } else { None }; if x.is_some() { r.busy[$i] += 1; crate::race::reg_take(b'c', $i); } x }}; }
+    macro_rules! done { ($i:expr) => {{ let mut r = lock(&sh.regs); r.busy[$i] -= 1; crate::race::reg_release(b'c', $i); }}; }
     let i0_of = |c: usize| names(|n| n.hist.get(&c).map(|h| h.len().saturating_sub(1)).unwrap_or(0));
     names(|n| n.list_path.insert(w, false));
     let load_steps = |what: &str| {
@@ -682,6 +699,7 @@ where
                 r.busy.resize(*c + 1, 0);
             }
             r.c[*c] = Some(a);
+            crate::race::reg_put(b'c', *c);
             format!("c{}={}", c, id)
         }
         Op::Load { c, g } => {
@@ -695,6 +713,7 @@ where
             let i0 = i0_of(*c);
             let guard = a.load();
             load_steps("load");
+            touch(&guard);
             let id = ident(&guard);
             check_window(sh, w, *c, i0, &id, "load");
             put_g!(*g, (guard, id.clone()));
@@ -712,6 +731,7 @@ where
             let i0 = i0_of(*c);
             let v = a.load_full();
             load_steps("load_full");
+            touch(&v);
             let id = ident(&v);
             check_window(sh, w, *c, i0, &id, "load_full");
             put_h!(*h, v);
@@ -799,6 +819,7 @@ where
             }
             names(|n| n.last_write.remove(&w));
             let old = a.swap(v);
+            touch(&old);
             let id = ident(&old);
             if let Some((_, _, replaced, _, _)) = names(|n| n.last_write.get(&w).cloned()) {
                 if replaced != id {
@@ -857,6 +878,7 @@ where
                     }
                 },
             };
+            touch(&res);
             let id = ident(&res);
             let same_ptr = id.split('#').next() == cur_id.split('#').next();
             match names(|n| n.last_write.get(&w).cloned()) {
@@ -897,6 +919,7 @@ where
                 let v = cur.as_ref().map(|x| x.get()).unwrap_or(0);
                 Some(VArc::<0>::new(v + 1))
             });
+            touch(&old);
             let id = ident(&old);
             match names(|n| n.last_write.get(&w).cloned()) {
                 Some((_, _, replaced, old_val, new_val)) => {
@@ -933,6 +956,7 @@ where
                 if c >= r.c.len() || r.c[c].is_none() || r.busy[c] > 0 {
                     return "skip".into();
                 }
+                crate::race::reg_take(b'c', c);
                 r.c[c].take().unwrap()
             };
             let a = match Arc::try_unwrap(a) {
@@ -943,6 +967,7 @@ where
             match h {
                 Some(h) => {
                     let v = a.into_inner();
+                    touch(&v);
                     let id = ident(&v);
                     if id != last {
                         violation(format!("into_inner: c{} returned {} but last stored {}", c, id, last));
@@ -1001,12 +1026,14 @@ where
         load_bound: cfg.load_bound,
     });
     *lock(&CTL) = Some(Ctl { active: false, ..Default::default() });
+    crate::race::start(prog.threads.len());
     // setup runs on this thread, outside the scheduler
     varc::SCHED_POINTS.store(false, SeqCst);
     for op in &prog.setup {
         exec_op(&sh, usize::MAX, op);
     }
     varc::SCHED_POINTS.store(true, SeqCst);
+    crate::race::spawn_all();
     lock(&CTL).as_mut().unwrap().active = true;
 
     let apis: Arc<Mutex<HashMap<usize, String>>> = Arc::new(Mutex::new(HashMap::new()));
@@ -1128,6 +1155,13 @@ where
         (std::mem::take(&mut c.trace), std::mem::take(&mut c.taken))
     };
     verif::set_hooks(None, None);
+    {
+        let (reads, frees, edges) = crate::race::stop();
+        let mut st = lock(&sh.stats);
+        *st.entry("race_checked_reads".into()).or_insert(0) += reads;
+        *st.entry("race_checked_destructions".into()).or_insert(0) += frees;
+        *st.entry("race_sync_edges".into()).or_insert(0) += edges;
+    }
 
     // Churn (C11): nodes allocated vs the peak number of threads that held one at the same time
     {
